@@ -20,6 +20,43 @@ PROPS = {
         "assumptions": ["callbacks are observed only through the (callback index, keyword, value) trace",
                         "values of numeric validations are integers in the model (the implementation-side oracle also uses non-integers)"],
     },
+    "C11": {
+        "modules": ["Props.C11"],
+        "driver": "driver_url", "ops": ["nbase", "clean", "dir", "join", "isabs"],
+        "level": "proof",
+        "level_text": "Lean 4 theorems about a hand-written structured-URL model of normalizeBase/absPath/path.Clean: idempotence, canonical shape (scheme, absolute cleaned path, no fragment), invariance under every spelling rewrite of the property (./, x/../, doubled slash, trailing slash, fragment, query on files, relative anchoring at the working directory); model tied to normalizer.go by differential correspondence through the verif-tagged export of normalizeBase and through ExpandSpec loader arguments",
+        "technique": "Lean 4 proof over a hand-written model + differential correspondence (compiled Lean driver vs real normalizeBase) + exhaustive spelling enumeration oracle",
+        "design_ref": "DESIGN.md 5 (C11)",
+        "trusted_base": [LEAN_KERNEL, DRIVER, HARNESS,
+                         "modelled not verified: net/url parsing and printing (structured URL {scheme,host,path,query,fragment}; inputs outside the tame grammar are counted out-of-model), path.Clean/Dir/Join/IsAbs (hand model, compared exhaustively with Go's over a segment alphabet on every run), filepath.Abs as cwd-prefixing, strings.ToLower on ASCII",
+                         "verif-tagged hook verif_hooks.go exporting normalizeBase (MANIFEST.hooks)"],
+        "assumptions": ["non-Windows build", "working directory is an absolute clean path (CwdOk)"],
+    },
+    "C12": {
+        "modules": ["Props.C12", "Props.C03Denorm"],
+        "driver": "driver_url", "ops": ["nuri", "rfc", "denorm", "clean", "dir", "join", "isabs"],
+        "level": "proof",
+        "level_text": "Lean 4 theorem normalizeURI_rfc: on canonical document bases and the property's reference class the model of normalizeURI equals an independently written RFC 3986 5.2.2 resolver (merge + remove_dot_segments), with absolute_unchanged and fragment_only_is_base; denormalizeRef resolves back (C03 cut spelling). Model tied to normalizer.go by correspondence through verif-tagged exports; oracle compares with net/url ResolveReference and with the loader argument end to end",
+        "technique": "Lean 4 proof over a hand-written model + differential correspondence + exhaustive bounded-alphabet oracle against url.ResolveReference",
+        "design_ref": "DESIGN.md 5 (C12)",
+        "trusted_base": [LEAN_KERNEL, DRIVER, HARNESS,
+                         "modelled not verified: net/url parse/print, path.Clean/Dir/Join, jsonreference.New normalisation (lower-case scheme/host, default port, duplicate slashes)",
+                         "the RFC 3986 resolver Rfc.resolve is a specification written by hand from the RFC text",
+                         "verif-tagged hook verif_hooks.go exporting normalizeURI/denormalizeRef"],
+        "assumptions": ["base is the canonical location of a document (CanonBase)", "reference is in RefClass: no scheme/authority/query, non-empty path segments, last segment not . or .., no escape that encodes / or ."],
+    },
+    "C13": {
+        "modules": ["Props.C13"],
+        "driver": "driver_url", "ops": ["refnew"],
+        "level": "proof",
+        "level_text": "Lean 4 theorems about the model of jsonreference canonicalisation as used by spec.Ref: idempotence under the one-port hypothesis (with a proved counter-example for stacked ports, which the property excludes), classification flags a function of the canonical URL; JSON/gob round trips decided by the exhaustive-by-construction oracle on the real code",
+        "technique": "Lean 4 proof over a hand-written model + differential correspondence (refnew) + string-generator oracle on NewRef/JSON/gob",
+        "design_ref": "DESIGN.md 5 (C13)",
+        "trusted_base": [LEAN_KERNEL, DRIVER, HARNESS,
+                         "modelled not verified: net/url parse/print and escaping normalisation (the model works on parsed components), purell-style NormalizeURL flags used by jsonreference",
+                         "the JSON and gob clauses are checked on the implementation only (encoding/json, encoding/gob are not modelled for Ref)"],
+        "assumptions": ["authority, if present, is a host with at most one port (OnePort)"],
+    },
 }
 
 # properties not (yet) claimed, with the reason
